@@ -172,10 +172,16 @@ pub fn run(args: &[String]) -> i32 {
         }
         check("reference password-mode writer and scrypt == pinned release on 3 seeded files", ok);
     }
+    if what == "all" {
+        // one-off searches that the checks would otherwise repeat (kept under build/cache)
+        crate::fam::a9::warm_caches();
+        println!("selftest ok   caches warmed");
+    }
     if what == "determinism" {
         // ksim selftest determinism [family] [count]: every base scenario twice, hashes must agree
         let only = args.get(1).cloned();
         let count: u64 = args.get(2).and_then(|c| c.parse().ok()).unwrap_or(200);
+        let seed: u64 = std::env::var("VERIF_SEED").ok().and_then(|s| s.parse().ok()).unwrap_or(crate::DEFAULT_SEED);
         for f in crate::families() {
             if only.as_deref().map(|o| o != f.name() && o != "all").unwrap_or(false) {
                 continue;
@@ -184,8 +190,8 @@ pub fn run(args: &[String]) -> i32 {
             // process-level families cost ~0.1 s per invocation: a third of the slice
             let count = if f.name().starts_with('b') { (count / 3).max(2) } else { count };
             for idx in 0..count {
-                let a = f.run_index(crate::DEFAULT_SEED, crate::engine::Tier::Quick, idx);
-                let b = f.run_index(crate::DEFAULT_SEED, crate::engine::Tier::Quick, idx);
+                let a = f.run_index(seed, crate::engine::Tier::Quick, idx);
+                let b = f.run_index(seed, crate::engine::Tier::Quick, idx);
                 for (k, (x, y)) in a.iter().zip(b.iter()).enumerate() {
                     if x.1 != y.1 && bad < 3 {
                         bad += 1;
